@@ -15,13 +15,15 @@
 
   -- OPEN: id_fail_hedge : identify topo G X Y = .error .unidentifiable → ∃ F F', Hedge G X Y F F'
   --   (Shpitser–Pearl 2006, Thm 5; the hedge has to be transported from the failing sub-problem back through
-  --    lines 2, 3, 4, 7 to the original query).  Proved instead: `step_refusal_line5` (the refusal is raised by line 5
-  --    on a sub-problem whose graph is a single district with `X ≠ ∅` and whose `G ∖ X` is a single district).
+  --    lines 2, 3, 4, 7 to the original query).  Proved instead: `id_fail_hedge_partial` — the refusal is raised by
+  --    line 5 on a sub-problem reached by the recursion, and that sub-problem has the hedge F = V', F' = V' ∖ X'.
   --   The converse (hedge ⇒ refusal) follows from `id_sound` and the non-identifiability of hedges (literature,
   --    not mechanised).  Both directions are decided per input by the two independent procedures of the harness.
   -- R: "leaves the caller's graph and query objects unchanged" is a Python-runtime clause (the model is pure).
 -/
 import Y0.Lemmas.IdTotal
+import Y0.Lemmas.IdTopoAnc
+import Y0.Lemmas.IdHedge
 
 namespace Y0
 open IdDsl IdAux
@@ -112,12 +114,51 @@ theorem identifyOutcomes_not_unidentifiable (topo : MG Name → Except Err (List
     cases e <;> simp
 
 /-- a refusal can only come from line 5: one pass on a valid input fails only with `unidentifiable`, and only when
-the current graph is a single district, so is `G ∖ X`, and `X ≠ ∅` (the two C-components of a hedge of the
-current sub-problem) -/
+lines 1-3 did not fire, the current graph is a single district, so is `G ∖ X`, and `X ≠ ∅` -/
 theorem step_refusal_line5 {topo : MG Name → Except Err (List Name)} (ht : TopoGood topo) {I : IdIn} (hv : Valid I)
     {e : Err} (h : step topo I = .error e) :
-    e = .unidentifiable ∧ I.X ≠ [] ∧ I.G.districts.length = 1 ∧ (I.G.removeNodes I.X).districts.length = 1 :=
+    e = .unidentifiable ∧ I.X ≠ [] ∧ I.G.districts.length = 1 ∧ (I.G.removeNodes I.X).districts.length = 1 ∧
+      ∃ anc anc', Pre I anc anc' :=
   step_error' hv ht h
+
+/-- **C02, refusal ⇒ hedge (partial).** If ID refuses a valid query, then the recursion reached a sub-problem
+`(G', X', Y')` (`Reach`: through lines 2, 3, 4, 7) on which line 5 fired, and in that sub-problem `V'` and `V' ∖ X'`
+form a hedge for `P_{x'}(y')` (Y0/Spec/Hedge.lean).  What is OPEN is transporting this hedge back to the original
+graph and query (Shpitser–Pearl 2006, Theorem 5). -/
+theorem id_fail_hedge_partial {topo : MG Name → Except Err (List Name)} (ht : TopoGood topo) (G : MG Name)
+    (X Y : List Name) (hq : ValidQuery G X Y) (hX : ∀ x ∈ X, x ∈ G.nodes)
+    (h : identify topo G X Y = .error .unidentifiable) :
+    ∃ (est : Expr) (J : IdIn), Reach topo { G := G, X := X, Y := Y, est := est } J ∧
+      J.G.Hedge J.X J.Y (fun v => v ∈ J.G.nodes) (fun v => v ∈ J.G.nodes ∧ v ∉ J.X) := by
+  unfold identify at h
+  cases hj : pJoint G.nodes with
+  | error e =>
+    exfalso
+    have hne : G.nodes ≠ [] := by
+      obtain ⟨y, hy⟩ := List.exists_mem_of_ne_nil _ hq.yne
+      exact List.ne_nil_of_mem (hq.ysub y hy)
+    unfold pJoint at hj
+    split at hj
+    · rename_i hs; exact sortNames_ne_nil hne hs
+    · cases hj
+  | ok est =>
+    rw [hj] at h
+    have hplain : EstPlain est := by
+      unfold pJoint at hj
+      split at hj
+      · cases hj
+      · cases hj; trivial
+    have hv : Valid { G := G, X := X, Y := Y, est := est } := ⟨hq.wf, hq.ranked, hq.ysub, hq.yne, hq.disj, hplain⟩
+    obtain ⟨J, hreach, hvJ, hxJ, hstep⟩ := idAlg_refusal ht _ hv hX h
+    exact ⟨est, J, hreach, line5_hedge hvJ hxJ ht hstep⟩
+
+/-- **C02, totality, closed form.** With an executable topological sorter that provably meets the assumption
+(`ancTopo`: sort by number of ancestors, `ancTopo_good`), for every well-formed graph without directed cycles
+(`MG.Acyclic`, the relational definition) and every valid query, ID returns an estimand or refuses. -/
+theorem id_total_acyclic (G : MG Name) (X Y : List Name) (hG : G.WF) (hac : G.Acyclic)
+    (hY : ∀ y ∈ Y, y ∈ G.nodes) (hne : Y ≠ []) (hdisj : ∀ y ∈ Y, y ∉ X) :
+    IdOutcomeOk (identify ancTopo G X Y) :=
+  id_total ancTopo_good G X Y ⟨hG, MG.acyclic_ranked hG hac, hY, hne, hdisj⟩
 
 /-! ### non-vacuity -/
 
